@@ -63,6 +63,44 @@ def strip_dropped(dump):
     return " ".join(res)
 
 
+def resend_monitor(case, log, ctx):
+    """retransmissions must stay recognisable: a fragment whose datagram has been acknowledged is never sent again under a NEW message
+    number (the receiver can only recognise a retransmission that keeps its number; a re-numbered copy of an accepted fragment is how a
+    message gets reassembled twice)"""
+    numbers, carriers, acked = {}, {}, {}      # per endpoint: fragment digest -> message numbers; datagram seq -> fragment digests
+    pos = [i for i, l in enumerate(case) if l.startswith(("build ", "recv ", "tmo "))]
+    n = -1
+    for rec in log:
+        if rec["op"] not in ("build", "recv", "tmo"):
+            continue
+        n += 1
+        at = pos[n] - 1 if n < len(pos) else len(case) - 2
+        e = rec.get("e")
+        if rec["op"] == "build":
+            p = rec.get("pkt")
+            if not p:
+                continue
+            for (mseq, ty, dg) in p["msgs"]:
+                if ty != 7:
+                    continue
+                nums = numbers.setdefault(e, {}).setdefault(dg, [])
+                if mseq not in nums:
+                    if acked.get(e, {}).get(dg):
+                        ctx.failure("fragment-renumbered-after-ack",
+                                    "%s sends fragment %s again under the new message number %d (earlier: %s) although a datagram that "
+                                    "carried it had already been acknowledged" % (e, dg, mseq, nums), {"case": case, "at": at})
+                        return True
+                    nums.append(mseq)
+                carriers.setdefault(e, {}).setdefault(p["seq"], []).append(dg)
+        else:
+            for ev in rec.get("ev", []):
+                q = ev.split(":")
+                if q[0] == "res" and q[2] == "1":
+                    for dg in carriers.get(e, {}).get(int(q[1]), []):
+                        acked.setdefault(e, {})[dg] = True
+    return False
+
+
 def monitor(case, log, ctx):
     idx = [i for i, l in enumerate(case) if l.startswith("recv ")]
     n = -1
@@ -190,6 +228,8 @@ def run(ctx):
         log = logs.get(core.case_id(c), [])
         monitor(c, log, ctx)
         if any(f["kind"] not in KNOWN for f in ctx.failures):
+            break
+        if resend_monitor(c, log, ctx):
             break
         connlib.window_monitor(c, log, ctx)
         if any(f["kind"] not in KNOWN for f in ctx.failures):
